@@ -176,8 +176,16 @@ func runLife(t *testing.T, cfg lifeCfg) (out lifeOutcome) {
 				panic(err)
 			}
 			go io.Copy(io.Discard, b)
+			// the remote is interested: the torrent unchokes it, so that the
+			// accounting of unchoked peers is at stake when everything stops
+			go b.Write([]byte{0, 0, 0, 1, 2})
 		}
 		synctest.Wait()
+		time.Sleep(time.Second)
+		synctest.Wait()
+		if cfg.Peers > 0 && peer.NumUnchoking() != cfg.Peers {
+			prob("C17/harness-setup", "expected %d unchoked peers before the scenario, NumUnchoking()=%d", cfg.Peers, peer.NumUnchoking())
+		}
 		var readerDone chan error
 		if cfg.Reader {
 			s.reader = tor.NewReader(ctx, int64(g.PSize), 100) // piece 1: never arrives
@@ -305,6 +313,9 @@ func runLife(t *testing.T, cfg lifeCfg) (out lifeOutcome) {
 				if _, err := s.reader.Read(make([]byte, 10)); err == nil {
 					prob("C17/reader-survives", "a Read after deletion succeeded")
 				}
+			}
+			if nu := peer.NumUnchoking(); nu != 0 {
+				prob("C17/unchoked-peers-left", "NumUnchoking()=%d after the torrent was deleted and all its peers are gone", nu)
 			}
 			if d := alloc.Bytes() - base; d != 0 {
 				prob("C17/memory-not-released", "%d bytes of piece memory are still allocated after the torrent was deleted", d)
